@@ -270,6 +270,12 @@ MUST_FIRE += [
     ("m98", ["C09"], ["W10"], rep1(S + "mub_circuits.py", "    return circuit_lookup.mub_circuit_lookup(num_qubits, connectivity).mubs", "    return circuit_lookup.mub_circuit_lookup(connectivity, num_qubits).mubs"), "get_mubs asks the table accessor with its arguments swapped (every valid request dies with FileNotFoundError; no passing test calls get_mubs)"),
     ("m99", ["C16"], ["K6"], rep1(S + "find_local_clifford_layer.py", "    m = R.shape[1]", "    m = R.shape[0]"), "number of operators read from the wrong axis: right for full stabilizers, raises for fewer operators than qubits"),
     ("m100", ["C03", "C09"], ["K1"], rep1(S + "circuit_lookup.py", "                qc.cx(qubits[0], qubits[1])", "                qc.cx(qubits[1], qubits[0])"), "loader swaps control and target of cx"),
+    ("m101", ["C11"], ["B3"], rep1(S + "tomography.py", "        if qubits is None or not full_hilbert_space:", "        if not (qubits is None or not full_hilbert_space):"), "early return of the m-qubit result inverted"),
+    ("m102", ["C11"], ["B3"], rep1(S + "tomography.py", "            new_key: Pauli = full_identity.copy()", "            new_key: Pauli = full_identity"), "full-register keys all write into the shared template"),
+    ("m103", ["C11"], ["B3"], rep1(S + "tomography.py", 'full_identity = Pauli("I" * self.readout_info.total_num_qubits)', 'full_identity = Pauli("I" * num_qubits)'), "identity template of the measured size instead of the register size"),
+    ("m104", ["C10", "C12"], ["S1"], rep1(S + "tomography.py", "expectation_value * (1 if z_pauli.phase == 0 else -1)", "expectation_value // (1 if z_pauli.phase == 0 else -1)"), "estimate floor-divided by the sign instead of multiplied"),
+    ("m105", ["C10", "C12"], ["S1"], rep1(S + "tomography.py", "            assert z_pauli.phase == 2 or z_pauli.phase == 0", "            assert z_pauli.phase == 2 or z_pauli.phase != 0"), "phase assertion rejects the + sign"),
+    ("m106", ["C10"], ["W3"], rep1(S + "tomography.py", "            expectation_values.update(stabilizer_fitter.expectation_values(full_hilbert_space=full_hilbert_space))", "            stabilizer_fitter.expectation_values(full_hilbert_space=full_hilbert_space)"), "per-circuit expectation values computed but never merged"),
     ("m95", ["C19"], ["K12"], rep1(S + "graph.py", "    def compress(self) -> int:", "    def compress(self) -> int:\n        if getattr(self, \"_id\", None) is not None:\n            return self._id\n        self._id = self._compress()\n        return self._id\n\n    def _compress(self) -> int:"), "graph id remembered by the object and never invalidated"),
     ("m72", ["C13"], ["A3"], rep1(S + "circuit_lookup.py", "result.circuits = [circuit.copy() for circuit in self.circuits]", "result.circuits = list(self.circuits)"), "fresh list of the cached circuits"),
 ]
